@@ -10,7 +10,7 @@ import (
 )
 
 func init() {
-	// vh drive C08 -part tlb|bags|seeds|tl|helpers -out F -tier T -seed N -shard i -shards n [-in FILE] [skip=N] [only=N] [ast=FILE] [schema=FILE] [abiops=FILE]
+	// vh drive C08 -part tlb|bags|seeds|tl|helpers|big|replay -out F -tier T -seed N -shard i -shards n [-in FILE] [skip=N] [only=N] [ast=FILE] [schema=FILE] [abiops=FILE]
 	register("drive:C08", func(a Args, w *ev.Writer) error {
 		o := c08.Opts{Tier: a.Tier, Seed: a.Seed, Shard: a.Shard, Shards: a.Shards, In: a.In, Only: -1}
 		for _, kv := range a.Rest {
@@ -44,6 +44,8 @@ func init() {
 			return c08.DriveTL(w, o)
 		case "helpers":
 			return c08.DriveHelpers(w, o)
+		case "big":
+			return c08.DriveBig(w, o)
 		case "replay":
 			return c08.ReplayBegins(w, o)
 		}
